@@ -278,7 +278,7 @@ class LiteralProvider(LoaderProvider, DumperProvider):
                 try:
                     if (type(data), data) in allowed_values_with_types:
                         return data
-                except TypeError:  # unhashable data can not be equal to a Literal value
+                except (TypeError, ArithmeticError):  # unhashable data or data that refuses comparison (Decimal('sNaN'))
                     pass
                 raise BadVariantLoadError(allowed_values_repr, data)
         else:
@@ -288,7 +288,7 @@ class LiteralProvider(LoaderProvider, DumperProvider):
                 try:
                     if data in allowed_values:
                         return data
-                except TypeError:  # unhashable data can not be equal to a Literal value
+                except (TypeError, ArithmeticError):  # unhashable data or data that refuses comparison (Decimal('sNaN'))
                     pass
                 raise BadVariantLoadError(allowed_values_repr, data)
 
